@@ -149,10 +149,16 @@ def parse(out):
         f = line.split("\t")
         if f[0] == "C" and len(f) == 4:
             pairs.setdefault(f[1], []).append((f[2], f[3]))
-        elif f[0] == "V":
-            viols.append(json.loads(f[1]))
-        elif f[0] == "S":
-            stats = json.loads(f[1])
+        elif f[0] == "V" and len(f) > 1:
+            try:
+                viols.append(json.loads(f[1]))
+            except ValueError:
+                pass  # a child killed by the watchdog in the middle of a line
+        elif f[0] == "S" and len(f) > 1:
+            try:
+                stats = json.loads(f[1])
+            except ValueError:
+                pass
     return pairs, viols, stats
 
 
